@@ -20,26 +20,26 @@ open Qryn.Ingest
     Stated for every flush threshold, database behaviour and state of the shared columns. -/
 theorem no_crash_full (thr : Nat) (env : Env) (cols : Cols) (r : Route) (d : Doc) :
     (ingestFull fixed thr env r d cols).1 ≠ .crash ∧ (ingestFull fixed thr env r d cols).1 ≠ .hang := by
-  obtain ⟨n, h⟩ := ingestFull_status fixed rfl rfl thr env r d cols
+  obtain ⟨n, h⟩ := ingestFull_status fixed rfl rfl rfl thr env r d cols
   rw [h]
   exact ⟨by simp, by simp⟩
 
 theorem no_crash (r : Route) (d : Doc) : ingest r d ≠ .crash ∧ ingest r d ≠ .hang :=
   no_crash_full _ _ _ r d
 
-/-- the two fixes that carry `no_crash`: the `ns` guard (no spinning parser) and the recover in `doPush`
-    (no un-recovered goroutine); it holds for any combination of the other fixes -/
-theorem no_crash_of (fx : Fixes) (hns : fx.nsGuard = true) (hrec : fx.pushRecover = true)
-    (thr : Nat) (env : Env) (cols : Cols) (r : Route) (d : Doc) :
+/-- the three fixes that carry `no_crash`: the `ns` guard and the influx line terminator (no spinning parser)
+    and the recover in `doPush` (no un-recovered goroutine); it holds for any combination of the other fixes -/
+theorem no_crash_of (fx : Fixes) (hns : fx.nsGuard = true) (hinf : fx.influxNewline = true)
+    (hrec : fx.pushRecover = true) (thr : Nat) (env : Env) (cols : Cols) (r : Route) (d : Doc) :
     ∃ n, (ingestFull fx thr env r d cols).1 = .status n :=
-  ingestFull_status fx hns hrec thr env r d cols
+  ingestFull_status fx hns hinf hrec thr env r d cols
 
 /-- **channel_closed_once.** Whatever the decoder does (finishes, returns an error, panics), the parser
     goroutine of the fixed code closes the response channel exactly once and sends at most one error. -/
 theorem channel_closed_once (thr : Nat) (r : Route) (b : Body) (run : Run)
     (hp : routePlan fixed thr r b = .run run) :
     run.trace.closes = 1 ∧ (run.trace.msgs.filter Msg.isError).length ≤ 1 :=
-  ⟨parserGoroutine_closes _ _ _ (plan_run_not_spin fixed rfl thr _ run hp), parserGoroutine_errors _ _ _⟩
+  ⟨parserGoroutine_closes _ _ _ (plan_run_not_spin fixed rfl rfl thr _ run hp), parserGoroutine_errors _ _ _⟩
 
 /-- **fault_is_error.** A run-time fault in the parser goroutine (any decoder, `onEntries`, `onSpan`,
     `onProfile`) is turned by `tamePanic` into exactly one error message and exactly one close of the
@@ -222,6 +222,13 @@ theorem pinned_A37_batch_corrupted :
 theorem fixed_A37_profile_stored :
     (ingestFull fixed flushThreshold ⟨true⟩ .profile (profDoc ⟨3, none⟩ 1700000000 1700000010 2000000) .empty)
     = (.status 200, { Cols.empty with profiles := ⟨1, 1⟩ }) := by decide
+
+/-- `POST /influx/api/v2/write` with the body `m\`: telegraf's stream parser never returns (found by the
+    fuzzing stream of this check on the real handler) -/
+def influxDangling : Doc := ⟨.plain, .influx true [.danglingEscape]⟩
+
+theorem pinned_influx_hang : ingestWith pinned .influx influxDangling = .hang := by decide
+theorem fixed_influx_rejected : ingest .influx influxDangling = .status 400 := by decide
 
 /-! ## Non-vacuity -/
 
